@@ -21,7 +21,10 @@ func (rt *runtime) cmplEvaluateNodeProgram(node *nodeProgram, eval bool) Value {
 		}(rt.scope)
 	}
 	rt.scope.frame.file = node.file
-	return rt.cmplEvaluateNodeStatementList(node.body)
+	if value := rt.cmplEvaluateNodeStatementList(node.body); value.kind != valueEmpty {
+		return value
+	}
+	return Value{} // a program that produces no value (14; 15.1.2.1 step 7 for eval code)
 }
 
 func (rt *runtime) cmplCallNodeFunction(function *object, stash *fnStash, node *nodeFunctionLiteral, argumentList []Value) Value {
